@@ -90,9 +90,11 @@ func (d *deepCopier) deepCopyIface(in, out reflect.Value) {
 	inElem := in.Elem()
 	switch inElem.Kind() {
 	case reflect.Ptr:
-		newVal := reflect.New(inElem.Type().Elem())
+		// go through deepCopyPtr with a temporary slot so the pointer
+		// memo is consulted (shared pointers and reference cycles).
+		newVal := reflect.New(inElem.Type()).Elem()
+		d.deepCopyPtr(inElem, newVal)
 		out.Set(newVal)
-		d.deepCopy(inElem.Elem(), newVal.Elem())
 		return
 	case reflect.Struct:
 		newVal := reflect.New(inElem.Type())
@@ -103,8 +105,10 @@ func (d *deepCopier) deepCopyIface(in, out reflect.Value) {
 		if inElem.IsNil() {
 			return
 		}
-		out.Set(reflect.MakeMapWithSize(inElem.Type(), inElem.Len()))
-		d.deepCopy(inElem, out.Elem())
+		// likewise for maps: deepCopyMap needs a settable slot for its memo.
+		newVal := reflect.New(inElem.Type()).Elem()
+		d.deepCopyMap(inElem, newVal)
+		out.Set(newVal)
 		return
 	case reflect.Slice:
 		if inElem.IsNil() {
